@@ -65,6 +65,7 @@ msg switch random nodes _ui position left top language spec_version revision exp
 localization flow_name campaigns fields flows site triggers version group events offset unit event_type
 delivery_hour message relative_to start_mode base_language trigger_type keyword keywords channel match_type
 exclude_groups enter_flow call_webhook transfer_airtime has_group HARD_EXIT set_contact_ K M F
+send_msg set_contact_field add_contact_groups remove_contact_groups set_run_result
 relative_to_key relative_to_label flow_uuid group_names group_uuids exclude_group_names exclude_group_uuids""".split()
 
 
